@@ -17,9 +17,10 @@ command-line spelling.
 
 Binding (spec -> code): the harness writes the files exactly as TLC says, names a file that occurs at several
 positions by the same path (or by another spelling of it) and pushes every case through the
-real code by way of collection.load, SimpleFitsCollection, the `toasty view` command line (real argparse
-+ CollectionLoader.create_from_args; the tiler is replaced by a recorder) and toasty.tile_fits (same
-recorder), then compares descriptions(), images() and export_simple() with TLC's expectation.  A few
+real code by way of collection.load, SimpleFitsCollection, toasty.tile_fits and every command-line subcommand
+that takes --hdu-index / --wcs-key (discovered from the real parsers: `toasty view` - real argparse +
+CollectionLoader.create_from_args, the tiler replaced by a recorder - and `toasty tile-multi-tan` - scalar and
+absent forms, the tile processor replaced by a recorder), then compares descriptions(), images() and export_simple() with TLC's expectation.  A few
 cases run the real tile_fits / `toasty tile-multi-tan` end to end and count the pixel values in the tiles.
 """
 import json
@@ -258,6 +259,26 @@ def make_collection(entry, paths, hs, ks, cli, flip):
         return C.load(inp, **_kwargs(hs, ks))
     if entry == "class":
         return C.SimpleFitsCollection(list(paths), **_kwargs(hs, ks))
+    if entry == "cli-multi-tan":
+        # `toasty tile-multi-tan`: the collection the command hands to its tile processor
+        from toasty import cli as tcli
+        from toasty import multi_tan
+        orig_mtp = multi_tan.MultiTanProcessor
+        multi_tan.MultiTanProcessor = _Spy
+        _Recorder.last = None
+        try:
+            with contextlib.redirect_stdout(io.StringIO()):
+                tcli.entrypoint(["tile-multi-tan", "--parallelism", "1", "--outdir", os.path.join(os.path.dirname(paths[0]), "never-written")]
+                                + _cli_opts(cli, hs, ks) + list(paths))
+        except _Stop:
+            pass
+        finally:
+            multi_tan.MultiTanProcessor = orig_mtp
+        coll = _Recorder.last
+        _Recorder.last = None
+        if coll is None:
+            raise _NoHook("tile-multi-tan did not hand a collection to multi_tan.MultiTanProcessor")
+        return coll
     orig = fits_tiler.FitsTiler
     fits_tiler.FitsTiler = _Recorder
     _Recorder.last = None
@@ -283,6 +304,48 @@ def make_collection(entry, paths, hs, ks, cli, flip):
 
 class _NoHook(Exception):
     pass
+
+
+class _Stop(Exception):
+    pass
+
+
+class _Spy(object):
+    """Stands in for a tile processor: records the collection the command built and stops the command there."""
+
+    def __init__(self, collection, *args, **kwargs):
+        _Recorder.last = collection
+        raise _Stop()
+
+
+# the command-line subcommands that take the selection options, and how each is replayed
+CLI_ROUTES = {"view": "cli", "tile-multi-tan": "cli-multi-tan"}
+
+
+def cli_selection_commands():
+    """Every subcommand of toasty.cli whose parser accepts --hdu-index or --wcs-key (discovered from the real parsers)."""
+    import argparse
+    from toasty import cli as tcli
+    found = {}
+    for name in sorted(dir(tcli)):
+        if not name.endswith("_getparser"):
+            continue
+        parser = argparse.ArgumentParser()
+        try:
+            getattr(tcli, name)(parser)
+        except Exception:  # noqa
+            continue
+        opts = set()
+        for act in parser._actions:
+            opts.update(o for o in act.option_strings if o in ("--hdu-index", "--wcs-key"))
+        if opts:
+            found[name[:-10].replace("_", "-")] = sorted(opts)
+    return found
+
+
+def multi_tan_applies(rec):
+    """tile-multi-tan takes one integer and one letter: its route covers the scalar and the absent forms."""
+    return rec["hs"]["form"] in ("none", "one") and rec["ks"]["form"] in ("none", "one")
 
 
 def _snapshot(o, is_image):
@@ -556,6 +619,14 @@ def run(ctx):
                 "load / SimpleFitsCollection / `toasty view` argv / tile_fits and compared. non-trivial = some file contributes "
                 "an HDU other than 0 or a key other than ' '")
     hists = histories(ctx)
+    cmds = cli_selection_commands()
+    ctx.note("cli_subcommands_with_selection_options", cmds)
+    for cmd in sorted(cmds):
+        if cmd not in CLI_ROUTES:
+            ctx.drift("subcommand `toasty %s` accepts %s but this check has no replay route for it" % (cmd, "/".join(cmds[cmd])))
+    for cmd in sorted(CLI_ROUTES):
+        if cmd not in cmds:
+            ctx.drift("subcommand `toasty %s` no longer accepts --hdu-index/--wcs-key" % cmd)
     groups = []     # (name, root, cases)
     root, recs = tlc_cases(ctx, "five3", LAYOUTS_5, 3)
     groups.append(("five3", root, recs))
@@ -576,8 +647,8 @@ def run(ctx):
             idx = len(jobs)
             n = len(rec["lay"])
             if name == "five3" and n < 3:
-                # every entry point (quick tier: two of the four, alternating pairs)
-                ents = (ENTRIES[idx % 4], ENTRIES[(idx + 2) % 4]) if ctx.quick else ENTRIES
+                # every entry point (quick tier: one of the four in rotation, plus tile-multi-tan where it applies)
+                ents = (ENTRIES[idx % 4],) if ctx.quick else ENTRIES
             elif ctx.quick:
                 # quick tier: the 3-file cases are replayed as a stratified subset (every k-th of each form class)
                 cls = (rec["hs"]["form"], rec["ks"]["form"])
@@ -590,6 +661,8 @@ def run(ctx):
                 ents = (ENTRIES[idx % 4], ENTRIES[(idx + 2) % 4])
             else:
                 ents = (ENTRIES[idx % 4],)
+            if multi_tan_applies(rec):
+                ents = tuple(ents) + ("cli-multi-tan",)
             jobs.append((root_, idx, rec, ents, hists))
             names.append(name)
     e2e_roots = set(g[1] for g in groups if g[0] in ("five3", "six3"))
@@ -625,7 +698,7 @@ def run(ctx):
         _report(ctx, res)
     ctx.note("end_to_end_tilings", len(e2e))
     ctx.note("replayed_cases_naming_one_file_twice_with_different_entries", nrep)
-    ctx.note("entry_points", list(ENTRIES) + ["tile_fits-e2e", "tile-multi-tan-e2e", "tiler-history"])
+    ctx.note("entry_points", list(ENTRIES) + ["cli-multi-tan", "tile_fits-e2e", "tile-multi-tan-e2e", "tiler-history"])
     for _r, _i, rec, ents, _h in jobs[:: max(1, len(jobs) // 5)][:5]:
         ctx.sample({"layouts": rec["lay"], "hdu_index": _show(rec["hs"]), "wcs_key": _show(rec["ks"]), "entry": list(ents),
                     "expected": [[e["hdu"], e["shape"], e["key"], e["crval"]] for e in rec["exp"]]})
